@@ -148,6 +148,10 @@ def replay_ops(ops):
         elif o == "dec_json":
             from .. import jsontree
             w.dec_json(json.dumps(tagged_to_plain(op["tree"])))
+        elif o == "provn":
+            w.provn(op["c"])
+        elif o == "provn_rec":
+            w.provn_rec(op["r"])
         elif o == "enc_xml":
             w.enc_xml(op["c"], op.get("ft", False))
         elif o == "dec_xml":
